@@ -30,3 +30,15 @@ package rpcserver
 //@   requires !authorized
 //@   modifies *
 //@   at call DB.RegisterQueryHandler assert auth_before_register: authorized
+
+// C13: the leader-side handler of one partition's remote query. A failure the follower reports in its final message
+// (EndOfResults together with a non-empty Error) must come back as an error from the handler - queryCluster counts a
+// partition as successful exactly when the handler returns nil. (Trusted: the row callbacks do not write the message
+// struct, which is private to this handler.)
+//@ func (*server).HandleRemoteQueries$2
+//@   modifies *
+//@   at call dyn:finish inscope assert follower_error_reported: finalErr == nil ==> !(m.EndOfResults && m.Error != "")
+//@   at call dyn:finish inscope assert finishes_with_final_error: callarg0 == finalErr
+//@   callback onRow modifies nothing
+//@   callback onFlatRow modifies nothing
+//@   callback onFields modifies nothing
